@@ -11,7 +11,8 @@
                           block, a release exactly the release record (private, public, start);
                           no other call writes a record; record timestamps lie inside the call
    clause 9  malformed trace (operation / result kinds do not match)
-   ConcObs (snapshot after a concurrent run) evaluates clauses 0-4 on the final table. *)
+   ConcObs (snapshot after a concurrent run) evaluates clauses 0-4 on the final table; with
+   [co_strict] (single caller, concurrent flusher) also exactly-one-record-per-event. *)
 From Coq Require Import ZArith NArith List Bool.
 From Verif Require Import Model.Nat.
 Import ListNotations.
@@ -122,6 +123,21 @@ Fixpoint table_clause (c : cfg) (tab : list aview) : option N :=
 Definition blk_eqb (a b : blk) : bool :=
   (b_priv a =? b_priv b) && (b_pub a =? b_pub b) && (b_start a =? b_start b) && (b_end a =? b_end b).
 
+(* exactly one record per event, in order (log oldest first): an assign for a private IP that the
+   log already shows holding a block, or a release that matches no open assign, is a lost or
+   duplicated record *)
+Fixpoint strict_log (bs : Z) (act : list blk) (l : list logrec) : bool :=
+  match l with
+  | [] => true
+  | r :: tl =>
+      let '(k, b) := rec_block bs r in
+      if k then
+        if existsb (fun x => b_priv x =? b_priv b) act then false else strict_log bs (b :: act) tl
+      else
+        let act' := remove_blk (b_priv b) (b_pub b) (b_start b) act in
+        if (length act' <? length act)%nat then strict_log bs act' tl else false
+  end.
+
 Definition conc_clause (s : sstate) (o : concobs) : option N :=
   let c := ss_cfg s in
   match table_clause c (co_table o) with
@@ -135,6 +151,7 @@ Definition conc_clause (s : sstate) (o : concobs) : option N :=
         | _ =>
             (* the log, read in file order, leaves exactly the final table *)
             let act := replay (c_pps c) (rev (map (fun r => (0, r)) (co_log o))) in
+            if co_strict o && negb (strict_log (c_pps c) [] (co_log o)) then Some 4%N else
             if (length act =? length (co_table o))%nat &&
                forallb (fun v => existsb (blk_eqb (blk_of_view v)) act) (co_table o) then None else Some 4%N
         end
